@@ -7,4 +7,9 @@ CLAIMS = {
         "note": TB + " Outside: containers longer than the bound, slice assignment/deletion (RuntimeError by design), membership of bare keys, unhashable keys.",
     },
 }
+CLAIMS["C14"] = {
+    "technique": "bounded symbolic execution (CrossHair+z3): one inductive step from an arbitrary valid KeyedSet vs dict-by-key model",
+    "text": "For every KeyedSet with <=2 (quick) / <=3 (thorough) items over four item universes (hashable items with explicit key function, keyed spec items, unhashable items with hashable keys, self-keyed items) plus KeyedSet[T,K], both settings of enforce_item_equivalence (symbolic), and every single operation (add, discard/remove/in/[] by item or by key, pop, clear, | & - ^ <= == |= -= isdisjoint against KeyedSet and built-in set operands) with symbolic argument keys and payloads, the real container agrees with a dict key->most recently added item and with set algebra on keys; ValueError/TypeError cases change nothing. Path trees exhausted by the solver; the step is inductive over histories.",
+    "note": TB + " Outside: sets larger than the bound; universes in which an item equals another item's key (documented ambiguity); with enforce_item_equivalence or a built-in set operand, operands holding unequal items under a shared key (membership is then item-sensitive; the statement only speaks of algebra on keys); surviving item of | per key is not pinned.",
+}
 NOT_APPLICABLE = {}
